@@ -4,11 +4,15 @@ A struct that has no tag and no direct typedef name (`typedef struct {...} *p_t;
 numbered per parser.  Every FFI of a chain declares its own such struct; through the
 including FFIs each pointer typedef must still denote the included module's type (same
 ctype object, same size of the pointee), in in-line and out-of-line ABI mode, for
-every chain shape of length 2-3 and every subset of modules that declare one.
+every chain shape of length 2-3 and every subset of modules that declare one.  Mode "api"
+compiles the same chains (the `named_ptr` branch of the generator's struct table).
 """
+import contextlib
 import importlib.util
+import io
 import itertools
 import os
+import subprocess
 import sys
 
 from .. import build
@@ -26,7 +30,7 @@ def cases():
         for declaring in itertools.product((False, True), repeat=len(chain)):
             if not declaring[0] or sum(declaring) < 2:
                 continue
-            for mode in ("inline", "ool"):
+            for mode in ("inline", "ool", "api"):
                 out.append((chain, declaring, mode))
     return out
 
@@ -43,16 +47,43 @@ def run_case(case, tag):
         if prev is not None:
             f.include(prev)
         f.cdef(_cdef(name) if decl else "typedef int filler_%s_t;" % name)
-        f.set_source("_c34an_%s_%s" % (tag, name), None)
+        if mode == "api":
+            # every module's C source defines the typedefs it and the modules before it in the chain declare
+            csrc = "".join((_cdef(n2) if d2 else "typedef int filler_%s_t;" % n2) + "\n"
+                           for n2, d2 in list(zip(chain, declaring))[:len(ffis) + 1])
+            f.set_source("_c34an_%s_%s_%d" % (tag, name, os.getpid()), csrc)
+        else:
+            f.set_source("_c34an_%s_%s" % (tag, name), None)
         ffis[name] = f
         prev = f
+    if mode == "api":
+        loaded = {}
+        sys.path.insert(0, d)
+        try:
+            for name in chain:
+                modname = "_c34an_%s_%s_%d" % (tag, name, os.getpid())
+                cfile = os.path.join(d, modname + ".c")
+                with contextlib.redirect_stdout(io.StringIO()):
+                    ffis[name].emit_c_code(cfile)
+                p = subprocess.run(["gcc", "-O0", "-w", "-shared", "-fPIC", "-I" + build.INCLUDEPY, cfile, "-o",
+                                    os.path.join(d, modname + build.EXT_SUFFIX)],
+                                   stdout=subprocess.PIPE, stderr=subprocess.STDOUT, text=True)
+                if p.returncode != 0:
+                    return [("chain_build_failed", name, name, "gcc rejects the generated module: " + p.stdout[-600:])]
+            importlib.invalidate_caches()
+            for name in chain:
+                loaded[name] = importlib.import_module("_c34an_%s_%s_%d" % (tag, name, os.getpid())).ffi
+        finally:
+            sys.path.remove(d)
+        ffis = loaded
     if mode == "ool":
         loaded = {}
         sys.path.insert(0, d)
         try:
             for name in chain:
                 modname = "_c34an_%s_%s" % (tag, name)
-                ffis[name].emit_python_code(os.path.join(d, modname + ".py"))
+                with contextlib.redirect_stdout(io.StringIO()):
+                    ffis[name].emit_python_code(os.path.join(d, modname + ".py"))
             for name in chain:
                 loaded[name] = importlib.import_module("_c34an_%s_%s" % (tag, name)).ffi
         finally:
